@@ -1,7 +1,6 @@
 From Base Require Import CInt.
-From C04 Require Import Gen Model Tactics ProofsNarrow Proofs.
+From C04 Require Import Gen Model Tactics ProofsNarrow ProofsHead.
 Local Open Scope Z_scope.
-
 (* ================================================================ the needs-check decision *)
 
 Lemma no_check_sound d s : wf_ity d -> wf_ity s ->
@@ -100,4 +99,77 @@ Proof.
   destruct op; destruct m.
   all: csolve.
   all: cfinish.
+Qed.
+
+Lemma site_arg_checked : site_checked SArg = true.
+Proof. vm_compute. reflexivity. Qed.
+
+(* an accessor called with an index i of any integer type: stopped with "narrow casting ..."
+   when i is negative, with the library message when the position is invalid, and let through
+   otherwise *)
+Lemma lib_access_correct m op idx i size impl :
+  wf_ity idx -> in_range idx i -> in_range USIZE size -> in_range U64 impl -> size + 1 <= tmax USIZE ->
+  lib_access m op idx i size impl =
+    if i <? 0 then Opanic MSG_NARROW
+    else if lib_valid op i size impl then Oval 0 else Opanic MSG_LIB.
+Proof.
+  intros Hw Hi Hs Him Hs1. unfold lib_access.
+  assert (Hu : wf_ity USIZE) by reflexivity.
+  rewrite (convert_at_correct m SArg idx USIZE i Hw Hu Hi site_arg_checked).
+  assert (R : in_rangeb USIZE i = negb (i <? 0)).
+  { unfold USIZE, USIZE_BITS. revert Hi. ity_cases idx Hw; ity_norm; lia. }
+  rewrite R. destruct (i <? 0) eqn:N; cbn [negb]; [reflexivity|].
+  rewrite lib_passes_correct; try assumption.
+  - destruct (lib_valid op i size impl); reflexivity.
+  - apply in_rangeb_spec. rewrite R, N. reflexivity.
+Qed.
+
+(* ---------------------------------------------------------------- non-vacuity examples *)
+Example ex_narrow_fires : ccall Gnu (mkcfun [I64] U8 (Sseq (Sif (Elor (Ebin Olt (Evar 0) (Elit I32 0)) (Ebin Ogt (Evar 0) (Elit I32 255))) (Spanic 2) Sskip) (Sret (Ecast U8 (Evar 0))))) [300] = Opanic 2.
+Proof. reflexivity. Qed.
+Example ex_narrow_fn : narrow_fn I64 U8 = Some (mkcfun [I64] U8 (Sseq (Sif (Elor (Ebin Olt (Evar 0) (Elit I32 0)) (Ebin Ogt (Evar 0) (Elit I32 255))) (Spanic 2) Sskip) (Sret (Ecast U8 (Evar 0))))).
+Proof. reflexivity. Qed.
+Example ex_narrow_passes : implicit_conv Gnu I64 U8 255 = Oval 255. Proof. reflexivity. Qed.
+Example ex_needs : needs_check U8 I64 = true /\ needs_check I64 U8 = false /\ needs_check I64 U64 = true.
+Proof. repeat split. Qed.
+Example ex_bounds : array_index Gnu I8 5 (-1) = Opanic MSG_BOUNDS /\ array_index Gnu I8 5 4 = Oval 4.
+Proof. split; reflexivity. Qed.
+Example ex_idiv : run_idiv I8 (-128) (-1) = Oval (-128) /\ run_idiv I8 7 0 = Opanic MSG_DIVZERO /\ run_idiv I8 (-7) 2 = Oval (-4).
+Proof. repeat split. Qed.
+Example ex_imod : run_imod I64 (-7) 2 = Oval 1 /\ run_imod I64 7 (-2) = Oval (-1).
+Proof. repeat split. Qed.
+Example ex_lib : lib_access Gnu SeqRemove I8 0 5 1 = Opanic MSG_LIB /\ lib_access Gnu VecAt I8 (-1) 5 1 = Opanic MSG_NARROW
+  /\ lib_access Gnu SeqAt U8 6 5 1 = Oval 0.
+Proof. repeat split. Qed.
+Example ex_sites : site_checked SRet1 = false /\ site_checked SRetDefer = true /\ site_checked SArrInit = false.
+Proof. repeat split. Qed.
+
+(* ---------------------------------------------------------------- the tie, as one statement *)
+Lemma helpers_tie :
+  (forall s d f, In (s, d, f) narrow_table -> narrow_fn s d = Some f /\ cfun_ok f = true) /\
+  (forall t f, In (t, f) bounds_table -> Some (bounds_fn t) = Some f /\ cfun_ok f = true) /\
+  (forall t f, In (t, f) idiv_table -> Some (idiv_fn t true) = Some f /\ cfun_ok f = true) /\
+  (forall t f, In (t, f) imod_table -> Some (imod_fn t true) = Some f /\ cfun_ok f = true) /\
+  deref_fn = deref_emitted /\
+  (forall d s b, In (d, s, b) inrange_table -> needs_check d s = negb b) /\
+  conv_sites = expected_sites /\
+  (guard_span_at = lib_guard SpanAt /\ guard_vector_at = lib_guard VecAt /\
+   guard_vector_insert = lib_guard VecInsert /\ guard_vector_remove = lib_guard VecRemove /\
+   guard_vector_pop = lib_guard VecPop /\ guard_sequence_at = lib_guard SeqAt /\
+   guard_sequence_insert = lib_guard SeqInsert /\ guard_sequence_remove = lib_guard SeqRemove /\
+   guard_sequence_pop = lib_guard SeqPop /\ guard_string_at = lib_guard StrAt /\
+   Some guard_sequence_at_pre = lib_pre SeqAt).
+Proof.
+  split; [|split; [|split; [|split; [|split; [|split; [|split]]]]]].
+  - intros s d f H. exact (table_matches_spec (fun '(s, d) => narrow_fn s d) narrow_table narrow_table_ok (s, d) f H).
+  - intros t f H. exact (table_matches_spec _ _ bounds_table_ok t f H).
+  - intros t f H. exact (table_matches_spec _ _ idiv_table_ok t f H).
+  - intros t f H. exact (table_matches_spec _ _ imod_table_ok t f H).
+  - pose proof deref_ok as H. apply andb_prop in H. destruct H as [H _]. apply cfun_eqb_eq. exact H.
+  - intros d s b H. pose proof inrange_table_ok as T. rewrite forallb_forall in T. specialize (T _ H). cbn in T.
+    apply andb_prop in T. destruct T as [T _]. apply andb_prop in T. destruct T as [T _].
+    apply Bool.eqb_prop in T. unfold needs_check. rewrite T. reflexivity.
+  - exact conv_sites_ok.
+  - repeat split; try (apply cexpr_eqb_eq; vm_compute; reflexivity).
+    cbn [lib_pre]. f_equal. apply cexpr_eqb_eq. vm_compute. reflexivity.
 Qed.
